@@ -245,6 +245,185 @@ fn oracle(s: &ProgScene<X>, t: &Trace) -> Vec<Violation> {
     out
 }
 
+// ------------------------------------------------------------------ differential clause
+//
+// "The new incarnation behaves like a freshly started actor on that mailbox", without a
+// hand-written expectation: actor X (role 0) handles a little history and is restarted at t=0;
+// actor Y (role 1) is spawned fresh with the same configuration. The same suffix program is then
+// run against both. Over all schedules, the set of what the suffix observes on X (callback
+// events after the restart completed, normalised; results of the suffix operations) must equal
+// the set observed on Y.
+
+/// virtual time at which the fresh actor of the differential scene is spawned
+const Y_AT: u64 = 10;
+
+struct Diff {
+    strat: Strat,
+    mailbox: Mailbox,
+    timers: Vec<Action>,
+    history: Vec<R>,
+    suffix: Vec<R>,
+    via_ctx: bool,
+    seen_x: std::cell::RefCell<std::collections::BTreeMap<u64, String>>,
+    seen_y: std::cell::RefCell<std::collections::BTreeMap<u64, String>>,
+}
+
+impl Diff {
+    /// what the suffix sees of one actor in one execution
+    fn project(&self, t: &Trace, role: u8, client: u8, first_suffix_op: u16, from_idx: usize) -> String {
+        let t0 = if role == 1 { Y_AT } else { 0 };
+        let mut parts: Vec<String> = vec![];
+        for (idx, e) in t.log.iter().enumerate() {
+            if idx < from_idx {
+                continue;
+            }
+            match e.ev {
+                Ev::Enter { a, cb, .. } | Ev::Exit { a, cb, .. } if a == role => {
+                    let cb = match cb {
+                        Cb::Tick { timer, .. } => Cb::Tick { timer, reg_inc: 0 },
+                        Cb::Exec { timer, .. } => Cb::Exec { timer, reg_inc: 0 },
+                        c => c,
+                    };
+                    let kind = if matches!(e.ev, Ev::Enter { .. }) { "in" } else { "out" };
+                    parts.push(format!("{kind}:{cb:?}@{}", e.time.saturating_sub(t0)));
+                }
+                Ev::End { c, i, r } if c == client && i >= first_suffix_op => {
+                    let r = match r {
+                        Res::Reply(rep) => format!("Reply(id={},digest={:x})", rep.id, rep.digest),
+                        other => format!("{other:?}"),
+                    };
+                    parts.push(format!("op{}={r}", i - first_suffix_op));
+                }
+                _ => {}
+            }
+        }
+        parts.join(";")
+    }
+}
+
+impl crate::check::Scene for Diff {
+    fn roles(&self) -> Vec<RoleCfg> {
+        // message 90 asks the actor to restart itself (Context::restart) from its handler
+        let r = RoleCfg { started_actions: self.timers.clone(), msg_actions: vec![(90, Action::Restart)], ..RoleCfg::default() };
+        vec![r.clone(), r]
+    }
+    fn setup(&self, exec: &crate::vexec::Exec) {
+        use crate::ops::{run_client, Handles};
+        crate::world::W.with(|w| w.borrow_mut().default_role[0] = 0);
+        let cfg = SpawnCfg { mailbox: self.mailbox, strat: self.strat, timeout: None };
+        let x = crate::scenes::spawn_probe(0, cfg).detach();
+        let mut xo: Vec<Op> = self.history.iter().enumerate().map(|(i, r)| to_op(*r, 10 + i as u32)).collect();
+        // (a call, so that it has returned - and the restart marker is queued - before the barrier)
+        xo.push(if self.via_ctx { Op::Call(H::Addr(0), 90) } else { Op::Restart(H::Addr(0)) });
+        // a call acts as a barrier: it is answered by the new incarnation, after the restart
+        xo.push(Op::Call(H::Addr(0), 91));
+        xo.extend(self.suffix.iter().enumerate().map(|(i, r)| to_op(*r, 50 + i as u32)));
+        let mut yo: Vec<Op> = vec![Op::Call(H::Addr(0), 91)];
+        yo.extend(self.suffix.iter().enumerate().map(|(i, r)| to_op(*r, 50 + i as u32)));
+        // both keep their handle until the timers had time to fire
+        xo.push(Op::Sleep(4));
+        yo.push(Op::Sleep(4));
+        exec.spawn_client(0, run_client(0, Handles::with_addr(x), xo));
+        // the fresh actor is only spawned once the restarted one is done (t = Y_AT), so that the
+        // two halves do not multiply each other's schedules; times are compared relative to
+        // the start of the incarnation
+        exec.spawn_client(1, async move {
+            crate::world::sleep(Y_AT as u32).await;
+            let y = crate::scenes::spawn_probe(1, cfg).detach();
+            run_client(1, Handles::with_addr(y), yo).await;
+        });
+    }
+    fn check(&self, _t: &Trace) -> Vec<Violation> {
+        vec![]
+    }
+    fn observe(&self, t: &Trace) {
+        // X: from the completed start of incarnation 1; Y: from its only start
+        let from_x = t.log.iter().position(|e| matches!(e.ev, Ev::Exit { a: 0, inc: 1, cb: Cb::Started, .. }));
+        let from_y = t.log.iter().position(|e| matches!(e.ev, Ev::Exit { a: 1, cb: Cb::Started, .. }));
+        let (Some(fx), Some(fy)) = (from_x, from_y) else { return };
+        crate::check::oblige("behaves-like-fresh");
+        let barrier_x = self.history.len() as u16 + 1;
+        let px = self.project(t, 0, 0, barrier_x, fx + 1);
+        let py = self.project(t, 1, 1, 0, fy + 1);
+        self.seen_x.borrow_mut().entry(crate::world::hash_of(&px)).or_insert(px);
+        self.seen_y.borrow_mut().entry(crate::world::hash_of(&py)).or_insert(py);
+    }
+    fn finish(&self, complete: bool) -> Vec<Violation> {
+        if !complete {
+            return vec![];
+        }
+        let (x, y) = (self.seen_x.borrow(), self.seen_y.borrow());
+        let only_x: Vec<&String> = x.iter().filter(|(h, _)| !y.contains_key(h)).map(|(_, s)| s).collect();
+        let only_y: Vec<&String> = y.iter().filter(|(h, _)| !x.contains_key(h)).map(|(_, s)| s).collect();
+        if only_x.is_empty() && only_y.is_empty() {
+            return vec![];
+        }
+        vec![Violation {
+            clause: "behaves-like-fresh",
+            key: format!("C07/restarted-differs-from-fresh/strategy={:?}", self.strat),
+            detail: format!(
+                "{} behaviour(s) only after a restart, {} only on a fresh actor; e.g. restarted: {:?} / fresh: {:?}",
+                only_x.len(),
+                only_y.len(),
+                only_x.first(),
+                only_y.first()
+            ),
+        }]
+    }
+}
+
+fn diff_cases(tier: Tier) -> Vec<Case> {
+    let mut v = vec![];
+    let timer_sets: Vec<Vec<Action>> = vec![
+        vec![],
+        vec![Action::Interval { timer: 1, period: 2 }],
+        vec![Action::IntervalWith { timer: 1, period: 3 }],
+        vec![Action::DelayedSend { timer: 1, delay: 2 }, Action::DelayedExec { timer: 2, delay: 3 }],
+    ];
+    let histories: Vec<Vec<R>> = if tier == Tier::Quick { vec![vec![], vec![R::Send, R::Call]] } else { vec![vec![], vec![R::Call], vec![R::Send, R::Call]] };
+    let timer_sets: Vec<Vec<Action>> = if tier == Tier::Quick { timer_sets[..2].to_vec() } else { timer_sets };
+    let suffixes: Vec<Vec<R>> = if tier == Tier::Quick {
+        vec![vec![R::Send, R::Call]]
+    } else {
+        vec![vec![R::Call], vec![R::Send, R::Call], vec![R::Call, R::Send, R::Call], vec![R::Call, R::CmdTimer(Action::Interval { timer: 5, period: 2 }), R::Call]]
+    };
+    // with the default strategy the state is carried over on purpose, so only recreate is
+    // comparable to a fresh actor - unless there is no history at all
+    for (strat, hs) in [(Strat::Recreate, &histories[..]), (Strat::Default, &histories[..1])] {
+        for &mb in &[Mailbox::U, Mailbox::B(1)] {
+            for ts in &timer_sets {
+                for h in hs {
+                    for sfx in &suffixes {
+                        for via_ctx in [false, true] {
+                            // (the message that asks for a Context::restart is itself history, which the
+                            // default strategy carries over)
+                            if via_ctx && strat == Strat::Default {
+                                continue;
+                            }
+                            v.push(Case {
+                                desc: format!("restart-vs-fresh strategy={strat:?} mailbox={} timers={ts:?} history={h:?} suffix={sfx:?} via_ctx={via_ctx}", mb.name()),
+                                exec: ExecCfg { horizon: 16, ..ExecCfg::default() },
+                                bound: None,
+                                scene: Box::new(Diff {
+                                    strat,
+                                    mailbox: mb,
+                                    timers: ts.clone(),
+                                    history: h.clone(),
+                                    suffix: sfx.clone(),
+                                    via_ctx,
+                                    seen_x: Default::default(),
+                                    seen_y: Default::default(),
+                                }),
+                            });
+                        }
+                    }
+                }
+            }
+        }
+    }
+    v
+}
+
 fn make_case(progs: &[Vec<R>], strat: Strat, mailbox: Mailbox, start_err_at: Option<usize>, started_timers: &[Action], horizon: u64, bound: Option<u32>) -> Case {
     let mut clients = vec![];
     for (c, p) in progs.iter().enumerate() {
@@ -356,6 +535,7 @@ fn cases(tier: Tier) -> Vec<Case> {
             }
         }
     }
+    v.extend(diff_cases(tier));
     if tier == Tier::Thorough {
         for &strat in &strats {
             for &mb in mbs {
@@ -377,7 +557,7 @@ pub fn property() -> Property {
     Property {
         id: "C07",
         cases,
-        clauses: &["incarnation-bounds", "restart-callbacks", "start-failure-on-restart-terminates", "state-carried-or-reset"],
+        clauses: &["behaves-like-fresh", "incarnation-bounds", "restart-callbacks", "start-failure-on-restart-terminates", "state-carried-or-reset"],
         full_rerun_check: true,
         assumptions: &[
             "handlers take no virtual time in the timer scenes, so a tick handled later than the start of the next incarnation must have fired after that start",
